@@ -17,7 +17,7 @@ import sys
 
 VERIF = os.path.dirname(os.path.dirname(os.path.abspath(__file__)))
 SCRATCH = os.environ.get('SM_SCRATCH', '/tmp/sm')
-PROPS = ['C%02d' % i for i in range(1, 19)]
+PROPS = os.environ.get('SM_PROPS', '').split() or ['C%02d' % i for i in range(1, 19)]  # SM_PROPS='C05 C06' runs only those checks (do not merge such rows)
 
 
 def sh(cmd, **kw):
